@@ -45,11 +45,11 @@ Theorem C04_model_converges : forall (c : @chain RA) load i0 imax, m_i0 (c_motor
   forall W0 TM I0 IM L, si (m_w0 (c_motor c)) = Ok W0 -> si (m_Tmax (c_motor c)) = Ok TM -> si i0 = Ok I0 -> si imax = Ok IM ->
   qk (m_Tmax (c_motor c)) = KTorque -> qk i0 = KCurrent -> qk imax = KCurrent ->
   (forall t p w lt, load t p w = Ok lt -> qk lt = KTorque /\ si lt = Ok L) ->
-  forall JJ DT D J dt0, equivalent_inertia c = Ok J -> si J = Ok JJ -> qk J = KInertiaMoment -> si dt0 = Ok DT -> I0 / IM < Rabs D ->
+  forall JJ DT D J, equivalent_inertia c = Ok J -> si J = Ok JJ -> qk J = KInertiaMoment -> I0 / IM < Rabs D ->
   0 <= I0 /\ 0 < IM /\ 0 < W0 /\ 0 < JJ ->
   let A := A_lin c TM I0 IM L JJ D in let kap := kap_lin c W0 TM I0 IM JJ D in
   0 < kap -> kap * DT <= 1/5 -> 0 < DT ->
-  forall h, hist_ok c load h -> uniform D dt0 h -> h <> [] ->
+  forall h, hist_ok c load h -> uniform DT D h -> h <> [] ->
   forall t0 s0 pre, h = (pre ++ [(t0, s0)])%list ->
   forall w0 p0 W00 P00, lastq (s_spd s0) = Ok w0 -> lastq (s_pos s0) = Ok p0 -> si w0 = Ok W00 -> si p0 = Ok P00 ->
   forall t s rest, h = (t, s) :: rest ->
@@ -63,10 +63,10 @@ Proof. intros. eapply model_converges; eauto. Qed.
 Theorem C04_model_converges_nocurrent : forall (c : @chain RA) load, (m_i0 (c_motor c) = None \/ m_imax (c_motor c) = None) ->
   forall W0 TM L, si (m_w0 (c_motor c)) = Ok W0 -> si (m_Tmax (c_motor c)) = Ok TM -> qk (m_Tmax (c_motor c)) = KTorque ->
   (forall t p w lt, load t p w = Ok lt -> qk lt = KTorque /\ si lt = Ok L) ->
-  forall JJ DT D J dt0, equivalent_inertia c = Ok J -> si J = Ok JJ -> qk J = KInertiaMoment -> si dt0 = Ok DT -> 0 < W0 /\ 0 < JJ ->
+  forall JJ DT D J, equivalent_inertia c = Ok J -> si J = Ok JJ -> qk J = KInertiaMoment -> 0 < W0 /\ 0 < JJ ->
   let A := (TM * Gg c - L) / JJ in let kap := TM * Gg c * Rr c / (1 * W0 * JJ) in
   0 < kap -> kap * DT <= 1/5 -> 0 < DT ->
-  forall h, hist_ok c load h -> uniform D dt0 h -> h <> [] ->
+  forall h, hist_ok c load h -> uniform DT D h -> h <> [] ->
   forall t0 s0 pre, h = (pre ++ [(t0, s0)])%list ->
   forall w0 p0 W00 P00, lastq (s_spd s0) = Ok w0 -> lastq (s_pos s0) = Ok p0 -> si w0 = Ok W00 -> si p0 = Ok P00 ->
   forall t s rest, h = (t, s) :: rest ->
